@@ -20,6 +20,7 @@ struct ShapeGeo {
 	uint32_t shaderKind = 0;
 	bool skinned = false;
 	bool skinDataWithoutWeights = false;   // SSE: weights only live in the BSTriShape vertex data
+	std::string attachments;               // what else hangs on the shape: collision object (type, target) and controller chain (types)
 };
 
 ShapeGeo capture(NifFile& nif, NiShape* s) {
@@ -44,6 +45,18 @@ ShapeGeo capture(NifFile& nif, NiShape* s) {
 			if (kv.first < g.weights.size()) g.weights[kv.first][g.bones[b]] += kv.second;
 	}
 	if (auto sh = nif.GetShader(s)) { g.shaderType = sh->GetBlockName(); g.shaderKind = sh->GetShaderType(); }
+	{
+		auto& hdr = nif.GetHeader();
+		g.attachments = "collision=";
+		if (auto co = hdr.GetBlock(s->collisionRef)) {
+			g.attachments += co->GetBlockName();
+			g.attachments += hdr.GetBlock<NiAVObject>(co->targetRef) == s ? "(targets the shape)" : "(targets something else)";
+		}
+		else g.attachments += s->collisionRef.IsEmpty() ? "none" : "dangling";
+		g.attachments += " controllers=";
+		int guard = 0;
+		for (auto c = hdr.GetBlock(s->controllerRef); c && guard < 64; c = hdr.GetBlock(c->nextControllerRef), guard++) g.attachments += std::string(c->GetBlockName()) + ",";
+	}
 	if (s->HasType<BSTriShape>())
 		if (auto si = nif.GetHeader().GetBlock<NiSkinInstance>(s->SkinInstanceRef()))
 			if (auto sd = nif.GetHeader().GetBlock(si->dataRef)) {
@@ -136,6 +149,7 @@ bool compareGeo(const ShapeGeo& a, const ShapeGeo& b, const std::string& what, c
 	}
 	if (a.parent != b.parent) return V("parent-node", "parent node '" + a.parent + "' became '" + b.parent + "'");
 	if (a.shaderType != b.shaderType) return V("shader-block", "shader " + a.shaderType + " became " + b.shaderType);
+	if (a.attachments != b.attachments) return V("attachments", "the shape had {" + a.attachments + "}, after the conversion it has {" + b.attachments + "}");
 	return true;
 }
 
@@ -285,6 +299,7 @@ void run(size_t idx) {
 		if (idx % 2) ao.maxInfluences = std::min(ao.maxInfluences, 4);
 		ao.extras = idx % 2 == 0;
 		ao.modelSpace = idx % 8 == 5 || idx % 8 == 2;
+		ao.collisionVolumes = idx % 5 == 2;   // shapes that carry their own collision object
 		bool unreferencedVerts = idx % 16 == 15;   // labelled stress dimension: vertices that no triangle uses
 		ao.everyVertexUsed = !unreferencedVerts;
 		if (idx % 10 == 6) {
@@ -374,10 +389,10 @@ void run(size_t idx) {
 
 MonReg reg({"C12", "exploration",
 			"models: the real LE/SE samples x option combinations, API-built SK and SSE models (1-3 shapes, 3..300 vertices, skinned with 1..120 bones and 1..6 influences or unskinned, "
-			"vertex colours random / all white / none, random partitions, extra data, sibling name clashes, more than 80 bones in one partition, faces the stored partitions do not list, model-space-normal shaders, converted object used before; one case in 16 with vertices no triangle uses as a labelled stress dimension) x "
+			"vertex colours random / all white / none, random partitions, extra data, sibling name clashes, more than 80 bones in one partition, faces the stored partitions do not list, model-space-normal shaders, shapes that carry their own collision object, converted object used before; one case in 16 with vertices no triangle uses as a labelled stress dimension) x "
 			"option combinations (removeParallax, calcBounds, fixBSXFlags, fixShaderFlags, headParts for single dynamic-capable shapes). Oracle per shape matched by name: positions "
 			"bit-exact, triangle multisets equal, UVs within half-float rounding, colours within 1/255 (all-white may be dropped), bone list equal, per-vertex weights equal to the normalised "
-			"four largest within 2e-3 (ties at the cut skipped), parent node and shader block kept, sibling names distinct; converted file reloads in the target version and satisfies the "
+			"four largest within 2e-3 (ties at the cut skipped), parent node, shader block, collision object (type, still targeting the shape) and controller chain kept, sibling names distinct; converted file reloads in the target version and satisfies the "
 			"C10 partition invariants; converting back returns equivalent geometry. Non-trivial = model that passed conversion, reload, and back-conversion.",
 			[] { Plan p = plan(); return realSamples().size() * (size_t)p.optsPerReal + p.api; }, run, 8, 300.0, false, false, nullptr});
 } // namespace
